@@ -45,10 +45,15 @@ CUTS = ['disc-initiator', 'disc-responder', 'lost-initiator', 'lost-responder']
 
 def plan(tier, seed):
     cases = []
+    # thorough: every index; the index set of a (procedure, cut) pair is dealt over PARTS cases so that the longest
+    # procedures (coc-drain: thousands of messages) stay inside the per-case watchdog and spread over the cores
+    parts = 1 if tier == 'quick' else 6
     for p in PROCS:
         for c in CUTS:
-            cases.append({'kind': 'cut', 'proc': p, 'cut': c, 'seed': seed * 1000003 + len(cases),
-                          'max_points': 150 if tier == 'quick' else 10 ** 6})
+            sd = seed * 1000003 + len(cases)
+            for part in range(parts):
+                cases.append({'kind': 'cut', 'proc': p, 'cut': c, 'seed': sd, 'part': part, 'parts': parts,
+                              'max_points': 150 if tier == 'quick' else 10 ** 6})
     for tr in ('le', 'bredr'):
         for how in ('disc-initiator', 'disc-responder', 'lost'):
             for k in range(2):
@@ -427,6 +432,7 @@ def run_case(case, r: R):
         rest = pts[case['max_points'] // 2:]
         rng = random.Random(case['seed'])
         pts = head + sorted(rng.sample(rest, case['max_points'] - len(head)))
+    pts = pts[case.get('part', 0)::case.get('parts', 1)]
     for k in pts:
         try:
             vloop.run(scenario(case, r, proc, cut, k))
